@@ -35,13 +35,23 @@ def suite_serve(tier):
 
 R3 = bytes([3]) + struct.pack(">HH", 0, 1)
 FILTER_UIDS = [0, 1, 2, 9, 17, 247, 255]
-FILTER_COMBOS = [(fe, "socket") for fe in L.FRONTENDS] + [("sync_serial", "rtu")]
+FILTER_COMBOS = [(fe, "socket") for fe in L.FRONTENDS] + [("sync_serial", "rtu"), ("sync_serial", "ascii"), ("aio_tcp", "ascii"),
+                                                           ("sync_tcp", "binary"), ("tw_tcp", "binary")]
+
+
+def filter_pdu(fr, uid):
+    """a read request; for binary framing one whose frame holds no '{' / '}' between the delimiters"""
+    for a in range(0, L.NREG):
+        pdu = bytes([3]) + struct.pack(">HH", a, 1)
+        if fr != "binary" or L.binary_clean(uid, pdu):
+            return pdu
+    raise RuntimeError("no clean binary frame for unit %d" % uid)
 
 
 def filter_scenario(fe, fr, single, bcast, hosted, uid):
     return {"fe": fe, "framer": fr, "cfg": {"single": single, "bcast": bcast, "ignore": False},
             "hosted": [[0, "ok"]] if single else [[u, "ok"] for u in hosted],
-            "reqs": [{"label": "r3", "pdu": R3.hex(), "uid": uid, "tid": 7, "listen": False}],
+            "reqs": [{"label": "r3", "pdu": filter_pdu(fr, uid).hex(), "uid": uid, "tid": 7, "listen": False}],
             "groups": [[0]], "mode": "filter", "direct": False}
 
 
